@@ -6,6 +6,10 @@ import O2P.Drv.Headers
 import O2P.Drv.Authz
 import O2P.Drv.Redirect
 import O2P.Drv.Signed
+import O2P.Drv.Cookies
+import O2P.Drv.Conc
+import O2P.Drv.CookieJar
+import O2P.Drv.NetSet
 /-!
   Line-protocol driver: reads one operation per line on stdin, writes the model's canonical
   answer per line on stdout.  Compiled as a core-only `lean_exe`.  Each `O2P/Drv/<X>.lean`
@@ -14,7 +18,7 @@ import O2P.Drv.Signed
 open O2P O2P.Drv
 
 def allOps : List (String × Op) :=
-  routesOps ++ serveOps ++ upstreamOps ++ headersOps ++ authzOps ++ redirectOps ++ signedOps
+  routesOps ++ serveOps ++ upstreamOps ++ headersOps ++ authzOps ++ redirectOps ++ signedOps ++ cookiesOps ++ concOps ++ cookieJarOps ++ netsetOps
 
 def dispatch (line : String) : String :=
   match line.splitOn "\t" with
